@@ -776,10 +776,160 @@ class C13(SimSpec):
         return None
 
 
+# ----------------------------------------------------------------------------------------------- C11
+class C11(SimSpec):
+    prop = "C11"
+    level = "fault_enumeration"
+    rule = (
+        "fault enumeration by replay: for each base scenario a reference run numbers the scheduling points (lock operations, file mutations, directory scans, external "
+        "commands, sleeps) of one submitter round - the login submit-jobs or a later try-submit-jobs on a compute node or from the user; the scenario is then re-executed with the "
+        "same schedule and at point k one of: kill, torn write (write-opens), OSError(EDQUOT) (writes/renames/removes), lock acquisition failure (lock points), sbatch failing "
+        "after all retries / answering garbage, squeue failing after all retries; then a random continuation (other nodes finish and try rounds, the user runs try-submit-jobs / "
+        "show-status from two hosts) to quiescence, under both lock-library behaviours; oracles over the whole faulty history: no job handed to sbatch twice, none started twice, "
+        "none started before its blockers have outcomes, every result row ever seen still on disk; after a squeue failure the run must reach the fault-free outcome; "
+        "distinct = (base, round, point k, fault kind, lock mode, continuation); non-trivial = the fault was actually injected and at least one later submitter round ran"
+    )
+    nbase = {"quick": 3, "thorough": 12}
+    task_timeout = 200
+
+    def base_scen(self, seed, b):
+        s = sub_seed(seed, b, "C11base")
+        rng = random.Random(s)
+        scen = scenario.gen_scenario(rng, max_jobs=9, min_jobs=5, fail_p=0.3)
+        for g in scen["groups"]:
+            g["batch"] = rng.randint(1, 3)
+        scen["max_nodes"] = rng.choice([None, 2, 3])
+        scen["user"] = {}
+        scen["policy"] = {"kind": rng.choice(["sticky", "walk"]), "sticky": 0.7, "finish_w": 1.0, "start_w": 1.0, "time_w": 0.0}
+        scen["c11"] = True
+        scenario.normalize(scen)
+        return s, scen
+
+    def tasks(self, tier, seed):
+        out = []
+        for b in range(self.nbase[tier]):
+            s, scen = self.base_scen(seed, b)
+            # which round: 0 = the login node's submit-jobs; later ordinals = try-submit-jobs on nodes
+            for ordn in ((0, 1) if tier == "quick" else (0, 1, 2, 3)):
+                sc = copy.deepcopy(scen)
+                sc["faults"] = {"record_points": ordn, "max_recoveries": 3}
+                sc["enum"] = {"base": b, "ord": ordn, "ref": True}
+                out.append(sim_task(sc, s, len(out)))
+        return out
+
+    def second_phase(self, tier, seed, tasks, results):
+        extra = []
+        k0 = len(tasks)
+        for t, r in zip(tasks, results):
+            if r.get("error"):
+                continue
+            en = t["args"]["scen"]["enum"]
+            pts = (r.get("sub_classes") or {}).get(str(en["ord"])) or (r.get("sub_classes") or {}).get(en["ord"]) or []
+            K = len(pts)
+            if K == 0:
+                continue
+            if tier == "quick":
+                # stratified: every first occurrence of a site class, thinned to ~36 points per round
+                first = {}
+                for i, c in enumerate(pts):
+                    first.setdefault(tuple(c), i + 1)
+                ks = sorted(first.values())
+                step = max(1, len(ks) // 36)
+                ks = ks[::step]
+                modes = [("", 0)]
+            else:
+                ks = list(range(1, K + 1))
+                modes = [("", 0), ("legacy", 0), ("", 1)]
+            nsb = sum(1 for c in pts if c[0] == "popen" and c[1] == "sbatch")
+            nsq = sum(1 for c in pts if c[0] == "popen" and c[1] == "squeue")
+            base = t["args"]["scen"]
+            def add(faults, fl, kind):
+                sc = copy.deepcopy(base)
+                sc["faults"] = dict(faults, record_points=en["ord"], max_recoveries=3)
+                sc["filelock"] = fl
+                sc["enum"] = dict(en, ref=False, kind=kind)
+                extra.append(sim_task(sc, t["args"]["seed"], k0 + len(extra)))
+            for kp in ks:
+                cls = pts[kp - 1]
+                ev, basef, mode = cls
+                is_wopen = ev == "open" and mode in ("w", "a", "creat", "wr", "excl")
+                is_mut = is_wopen or ev in ("os.rename", "os.remove", "os.mkdir")
+                for fl, cont in modes:
+                    add({"crash_at": [en["ord"], kp, "die"], "cont": cont}, fl, "kill")
+                    if is_mut:
+                        add({"crash_at": [en["ord"], kp, "raise"], "cont": cont}, fl, "edquot")
+                    if is_wopen and mode in ("w", "a") and (tier == "thorough" or kp % 2 == 0):
+                        add({"crash_at": [en["ord"], kp, "torn"], "cont": cont}, fl, "torn")
+                    if ev == "open" and mode == "excl" and basef.endswith(".lock"):
+                        add({"crash_at": [en["ord"], kp, "lockfail"], "cont": cont}, fl, "lockfail")
+            for fl, cont in modes:
+                for n in range(1, min(nsb, 3 if tier == "quick" else 8) + 1):
+                    add({"rpc_at": [en["ord"], "sbatch", n, "fail"], "cont": cont}, fl, "sbatch_fail")
+                    add({"rpc_at": [en["ord"], "sbatch", n, "garbage"], "cont": cont}, fl, "sbatch_garbage")
+                for n in range(1, min(nsq, 2 if tier == "quick" else 6) + 1):
+                    add({"rpc_at": [en["ord"], "squeue", n, "fail"], "cont": cont}, fl, "squeue_fail")
+        return extra
+
+    def shape(self, t, r):
+        sc = t["args"]["scen"]
+        return f"{sc['enum']}{sc['faults'].get('crash_at')}{sc['faults'].get('rpc_at')}{sc['faults'].get('cont')}{sc.get('filelock')}"
+
+    def nontrivial(self, t, r):
+        return bool(r.get("faults")) and (r.get("rounds") or 0) >= 2
+
+    def sample(self, t, r):
+        sc = t["args"]["scen"]
+        return {"base_scenario": brief(sc), "enumeration": sc["enum"], "fault": sc["faults"], "lock_mode": sc.get("filelock") or "installed filelock", "injected": r.get("faults"), "observed": run_brief(r)}
+
+    def counters(self, tasks, results):
+        c = self.base_counters(tasks, results)
+        sites = set()
+        kinds = {}
+        injected = 0
+        diverged = 0
+        for t, r in zip(tasks, results):
+            if r.get("error"):
+                continue
+            en = t["args"]["scen"]["enum"]
+            if en.get("ref"):
+                continue
+            fs = r.get("faults") or []
+            if fs:
+                injected += 1
+                f = fs[0]
+                rk = "submit-jobs" if en["ord"] == 0 else "try-submit-jobs"
+                sites.add((rk, f[0], str(f[3]) if len(f) > 3 else ""))
+                kinds[en["kind"]] = kinds.get(en["kind"], 0) + 1
+            else:
+                diverged += 1
+        ok = [r for r in results if not r.get("error")]
+        c["reference_runs"] = sum(1 for t in tasks if t["args"]["scen"]["enum"].get("ref"))
+        c["fault_executions"] = sum(1 for t in tasks if not t["args"]["scen"]["enum"].get("ref"))
+        c["faults_actually_injected"] = injected
+        c["fault_point_not_reached"] = diverged
+        c["crash_site_classes_hit"] = len(sites)
+        c["crash_site_class_examples"] = [list(x) for x in sorted(sites)[:25]]
+        c["by_fault_kind"] = kinds
+        c["lock_modes"] = hist((t["args"]["scen"].get("filelock") or "installed") for t in tasks)
+        c["runs_ending_stuck_or_incomplete"] = sum(1 for r in ok if not r.get("complete"))
+        c["runs_reaching_completion_after_fault"] = sum(1 for r in ok if r.get("complete") and r.get("faults"))
+        return c
+
+    def floors(self, cov):
+        if cov.get("faults_actually_injected", 0) < 100:
+            return "fewer than 100 faults injected"
+        if cov.get("crash_site_classes_hit", 0) < 40:
+            return "fewer than 40 distinct crash-site classes hit"
+        for k in ("kill", "edquot", "torn", "lockfail", "sbatch_fail", "squeue_fail"):
+            if cov.get("by_fault_kind", {}).get(k, 0) < 2:
+                return f"fault kind {k} injected fewer than 2 times"
+        return None
+
+
 def json_key(d):
     import json as _j
 
     return _j.dumps(d, sort_keys=True)
 
 
-SPECS = {c.prop: c for c in (C01, C02, C03, C04, C05, C06, C09, C12, C13, C14, C16)}
+SPECS = {c.prop: c for c in (C01, C02, C03, C04, C05, C06, C09, C11, C12, C13, C14, C16)}
